@@ -429,7 +429,9 @@ package s3db
 //@   ensures imp(err != nil, result0 == nil)
 //@   ensures imp(inMemoryS3 != nil, inMemoryS3.Client != nil)
 
+// ASSUMED (the schema comes out of the combinator parser, which is outside the verified subset)
 //@ func convertSchema
+//@   trusted
 //@   requires t != nil
 //@   modifies t.usesRowID, t.KeyCol, t.SchemaString, t.schema, t.ColumnIndexByName, t.ColumnNameByIndex
 //@   ensures imp(result == nil, t.SchemaString != "")
